@@ -21,6 +21,7 @@ META = {
         "R02.2": "helper bodies match their primitive summaries; StackError variants per primitive",
         "R02.3": "errors carry the instruction's own state",
         "R02.4": "try_recover / into_state / interpreter recovery wiring",
+        "R02.5": "who may write PushState: inputs and step limit only the builder, stacks only via HasStack::stack_mut, output only via HasStdout::stdout",
     },
     "trusted_base": ["std Result/Option combinators", "Box::new / deref", "uecfacts driver + uecheck rule engine (pushfx)"],
     "assumptions": ["S1: every stack holds at most max_stack_size elements at instruction entry (C04 R04.1, C19 typestate); under S1 a push that follows a pop on the same stack cannot overflow"],
@@ -295,6 +296,47 @@ def check(ctx):
     into = lambda e: e[0] == "fnitem" and path_ends(e[1], "IntoState::into_state")
     ctx.check(len(ps) == 1 and len(ctx.paths(g)) == 1 and match(ps[0].ret, Agg("Result::Ok", Call("Result::unwrap_or_else", Param(1), into, nargs=2))), "R02.4",
               "try_recover(RecoverableError)/Ok(state-or-carried-state)", short(ps[0].ret, 4) if ps else "-", g.at())
+    # ---- R02.5: what an instruction may write at all ------------------------------------------------------
+    # "identical ... (every stack, the output buffer, the inputs and the limits)": the input bindings and the step
+    # limit are written by the builder only; the stack fields are reached mutably only through the HasStack
+    # accessors (+ the builder and run_to_completion's exec pop); the output buffer only through HasStdout::stdout.
+    # Anything else that takes a mutable path into PushState - e.g. input_instructions.remove_entry() around a
+    # perform - can leave the state changed when the instruction fails.
+    PS = "push::push_vm::push_state::PushState"
+    adt = ctx.F.adts.get(PS)
+    fields = [x["name"] for x in adt["variants"][0]["fields"]] if adt else []
+    acc = {}
+    for fn in ctx.F.fns.values():
+        for bb in fn.blocks:
+            for st in bb["stmts"]:
+                if st["k"] != "assign":
+                    continue
+                for e in st["lhs"]["p"]:
+                    if isinstance(e, dict) and e.get("adt") == PS:
+                        acc.setdefault(e.get("name"), set()).add(fn.id)
+                rv = st["rv"]
+                if rv["k"] == "ref" and rv.get("mut"):
+                    for e in rv["place"]["p"]:
+                        if isinstance(e, dict) and e.get("adt") == PS:
+                            acc.setdefault(e.get("name"), set()).add(fn.id)
+    is_builder = lambda fid: "PushStateBuilder::<" in fid
+    is_hasstack = lambda fid: fid.endswith(">::stack_mut") and " as push::push_vm::stack::HasStack<" in fid
+    RTC_ = "<push::push_vm::push_state::PushState as push::push_vm::State>::run_to_completion"
+    STDOUT_ = "<push::push_vm::push_state::PushState as push::push_vm::push_io::HasStdout>::stdout"
+    ctx.check(set(fields) >= {"exec", "input_instructions", "max_instruction_steps", "stdout"}, "R02.5", "PushState/fields-known", str(fields), adt["span"]["at"] if adt else None)
+    for name in sorted(set(fields) | set(acc)):
+        writers = acc.get(name, set())
+        if name in ("input_instructions", "max_instruction_steps"):
+            bad = sorted(w for w in writers if not is_builder(w))
+            what = "written by the builder only"
+        elif name == "stdout":
+            bad = sorted(w for w in writers if w != STDOUT_)
+            what = "reached mutably only through HasStdout::stdout"
+        else:
+            bad = sorted(w for w in writers if not (is_builder(w) or is_hasstack(w) or (name == "exec" and w == RTC_)))
+            what = "reached mutably only through HasStack::stack_mut (+ builder" + (", run_to_completion's pop" if name == "exec" else "") + ")"
+        ctx.check(not bad, "R02.5", "PushState.%s/%s" % (name, what.replace(" ", "-")), "%d mutable access site function(s)" % len(writers), None,
+                  bad_detail="PushState.%s must be %s, but is also taken mutably / assigned in: %s" % (name, what, "; ".join(bad)))
     rt = ctx.fn("<push::push_vm::push_state::PushState as push::push_vm::State>::run_to_completion")
     body = [p for p in ctx.paths(rt) if p.end != "unreachable"]
     okr = False
